@@ -65,7 +65,7 @@ CHECKS = {
              "int(str(z)) = z is proved), C04_stage2_read_back, C04_media_read_back, C04_checksums_read_back (every path gets exactly the "
              "algorithm/value typed from its own text, no foreign path appears), C04_image_tables_are_read_back (every platform's table "
              "comes back with exactly its (name, path) entries and no other platform appears, for platforms not spelled '<x>-<arch>'; "
-             "uses C04_written_section_names_are_distinct, also proved); C04_flat_variants_read_back (in a tree whose top-level variants have no children, every variant the reader returns is a written "
+             "uses C04_written_section_names_are_distinct, also proved); C04_base_product_read_back, C04_flat_variants_read_back (in a tree whose top-level variants have no children, every variant the reader returns is a written "
              "one with its id/uid/name/type, no children and all seven path kinds as written) and C04_flat_variants_are_all_read_back (conversely every "
              "written non-addon variant whose UID has no comma is returned: the variants read are exactly the variants written); .discinfo: C04_discinfo_roundtrip (load_di (dump_di d) = d for "
              "canonical timestamp tokens, one-line description/arch, 'ALL' or integers of any size; the reader model load_di is "
